@@ -20,9 +20,9 @@ def step_harness(n, write):
     def harness():
         eth = pysym.module("ethercat")
         used = [bool(E.bool(f"slot{i}_in_use")) for i in range(n)]
-        old = [E.int(f"slot{i}_logical", 0x1000, 0x7fffffff) if used[i] else None
+        old = [E.int(f"slot{i}_logical", 0, 0x7fffffff) if used[i] else None
                for i in range(n)]
-        logical = E.int("logical", 0x1000, 0x7fffffff)
+        logical = E.int("logical", 0, 0x7fffffff)
         size = E.int("size", 1, 1500)
         offset = E.int("offset", 0x1000, 0x3000)
         model = busmodel.TerminalModel("t", position=1234)
@@ -103,7 +103,7 @@ def history_harness(nslots, nmaps):
         model = busmodel.TerminalModel("t", position=1234)
         bus = busmodel.Bus(eth, [model])
         kinds = [bool(E.bool(f"map{i}_is_write")) for i in range(nmaps)]
-        logs = [E.int(f"map{i}_logical", 0x1000, 0x7fffffff)
+        logs = [E.int(f"map{i}_logical", 0, 0x7fffffff)
                 for i in range(nmaps)]
         out = dict(live={}, problems=[])
 
@@ -158,7 +158,7 @@ def concurrent_harness(nslots, nmaps):
         model = busmodel.TerminalModel("t", position=1234)
         bus = busmodel.Bus(eth, [model])
         kinds = [bool(E.bool(f"map{i}_is_write")) for i in range(nmaps)]
-        logs = [E.int(f"map{i}_logical", 0x1000, 0x7fffffff)
+        logs = [E.int(f"map{i}_logical", 0, 0x7fffffff)
                 for i in range(nmaps)]
         live = {}
         failed = []
